@@ -1268,6 +1268,8 @@ def value_attr(it, obj, attr):
             return getattr(obj, attr)
         if attr in obj._d:
             return obj._d[attr]
+        if attr == "index" and not obj._d.get("__class__") and not obj._d.get("__super__"):
+            return ColList(f_ for f_ in obj._fields)         # a table row (pd.Series): its index is the column names
         if obj._d.get("__super__"):
             slf = obj._d["self"]
             if isinstance(slf, GA):
@@ -1563,6 +1565,13 @@ def vec_method(it, obj, name, args, kw):
             return r
         if len(shape) == 1 and isinstance(shape[0], int) and obj.exact:
             raise Raised("ValueError", f"cannot reshape array of size {len(obj.v)} into shape ({shape[0]},)")
+    if name == "between" and len(args) >= 2:
+        incl = args[2] if len(args) > 2 else kw.get("inclusive", "both")
+        if incl not in ("both", "left", "right", "neither"):
+            raise Undecided(f"Series.between(inclusive={incl!r})")
+        lo_op = ast.GtE() if incl in ("both", "left") else ast.Gt()
+        hi_op = ast.LtE() if incl in ("both", "right") else ast.Lt()
+        return lift1(lambda x: False if is_nan(x) else (ai.truth(ai.compare(lo_op, x, args[0])) and ai.truth(ai.compare(hi_op, x, args[1]))), obj)
     if name == "astype":
         return lift1(lambda x: x if is_nan(x) and args[0] not in ("int", int) else astype(x, args[0]), obj)
     if name == "abs":
@@ -2183,6 +2192,19 @@ def ext_call(it, dotted, args, kw):
             r = vec_method(it, a0, "drop_duplicates", [], {})
             r.exact = a0.exact
             return r
+    if name == "np.unique" and len(args) == 1 and not kw and isinstance(args[0], Vec) and args[0].exact:
+        # the sorted distinct values (strings in lexical order: 'chr10' before 'chr2')
+        vals = [x for x in args[0].v]
+        if all(isinstance(x, str) for x in vals) or (_lits(vals) is not None):
+            keyed = vals if all(isinstance(x, str) for x in vals) else _lits(vals)
+            out_, seen_ = [], set()
+            for k_, x in sorted(zip(keyed, vals), key=lambda p_: p_[0]):
+                if k_ not in seen_:
+                    seen_.add(k_)
+                    out_.append(x)
+            r = Vec(out_)
+            r.exact = True
+            return r
     if name in ("np.all", "np.any") and len(args) == 1 and not kw and isinstance(args[0], Vec):
         return vec_method(it, args[0], name[3:], [], {})
     if name == "np.where" and len(args) == 1 and isinstance(args[0], Vec) and all(isinstance(x, bool) for x in args[0].v):
@@ -2272,7 +2294,10 @@ def ext_call(it, dotted, args, kw):
     if name == "np.concatenate":
         out = []
         all_exact = True
-        for part in it.iterate(args[0]):
+        parts_ = list(it.iterate(args[0]))
+        if not parts_:
+            raise Raised("ValueError", "need at least one array to concatenate")
+        for part in parts_:
             if isinstance(part, (list, tuple)) and all(not isinstance(x, (list, tuple, Vec)) for x in part):
                 out.extend(part)                         # a literal list among the arrays ([False] + mask)
                 continue
